@@ -32,20 +32,28 @@ package tabula
 //@   ensures refused_on_mismatch: detected != format.Unknown && detected != e.format ==> err
 
 // ---- C10: deriving a configured extractor never changes (or shares mutable state with) the one it came from ----
-//@ func (ExtractOptions) clone
+//@ func (ExtractOptions) clone results (res)
 //@   property C10
-//@   flags frameonly, noalias
+//@   flags noalias, nosafety
 //@   fresh pages
+//@   ensures same_values: res.excludeHeaders == o.excludeHeaders && res.excludeFooters == o.excludeFooters && res.byColumn == o.byColumn && res.preserveLayout == o.preserveLayout && res.joinParagraphs == o.joinParagraphs && sameseq(res.pages, o.pages)
 
-//@ func (*Extractor) clone
+//@ spec func sameFlags(a ExtractOptions, b ExtractOptions) bool = a.excludeHeaders == b.excludeHeaders && a.excludeFooters == b.excludeFooters && a.byColumn == b.byColumn && a.preserveLayout == b.preserveLayout && a.joinParagraphs == b.joinParagraphs
+//@ spec func sameSource(a *Extractor, b *Extractor) bool = a.filename == b.filename && a.format == b.format && a.err == b.err && a.ownsReader == b.ownsReader && a.readerOpened == b.readerOpened
+
+//@ func (*Extractor) clone results (res)
 //@   property C10
-//@   flags frameonly, noalias
+//@   flags noalias, nosafety
 //@   fresh warnings, pages
+//@   ensures parent_unchanged: e == old(e)
+//@   ensures same_configuration: !isnil(res) && sameSource(res, e) && sameFlags(res.options, e.options) && sameseq(res.options.pages, e.options.pages)
 
-//@ func (*Extractor) Pages
+//@ func (*Extractor) Pages results (res)
 //@   property C10
-//@   flags frameonly, noalias
+//@   flags noalias, nosafety
 //@   fresh pages
+//@   ensures parent_unchanged: e == old(e)
+//@   ensures pages_appended: !isnil(res) && sameSource(res, e) && sameFlags(res.options, e.options) && len(res.options.pages) == len(e.options.pages) + len(pages) && (forall k int :: {res.options.pages[k]} 0 <= k && k < len(e.options.pages) ==> res.options.pages[k] == e.options.pages[k]) && (forall k int :: {pages[k]} 0 <= k && k < len(pages) ==> res.options.pages[len(e.options.pages) + k] == pages[k])
 
 //@ func (*Extractor) PageRange
 //@   property C10
@@ -132,3 +140,35 @@ package tabula
 //@   ensures refused_content_opens_nothing: !old(e.readerOpened) && old(e.validateFormat()) ==> err && e == old(e)
 //@   ensures opened_is_owned: !err && !old(e.readerOpened) ==> e.readerOpened && e.ownsReader
 //@   ensures failure_opens_nothing: err ==> e == old(e)
+
+// option setters: the extractor they are called on is left as it was; the derived one differs in exactly that option
+//@ func (*Extractor) ExcludeHeaders results (res)
+//@   property C10
+//@   flags nosafety
+//@   ensures parent_unchanged: e == old(e)
+//@   ensures only_this_option_set: !isnil(res) && sameSource(res, e) && sameseq(res.options.pages, e.options.pages) && res.options.excludeHeaders && res.options.excludeFooters == e.options.excludeFooters && res.options.byColumn == e.options.byColumn && res.options.preserveLayout == e.options.preserveLayout && res.options.joinParagraphs == e.options.joinParagraphs
+//@ func (*Extractor) ExcludeFooters results (res)
+//@   property C10
+//@   flags nosafety
+//@   ensures parent_unchanged: e == old(e)
+//@   ensures only_this_option_set: !isnil(res) && sameSource(res, e) && sameseq(res.options.pages, e.options.pages) && res.options.excludeFooters && res.options.excludeHeaders == e.options.excludeHeaders && res.options.byColumn == e.options.byColumn && res.options.preserveLayout == e.options.preserveLayout && res.options.joinParagraphs == e.options.joinParagraphs
+//@ func (*Extractor) ExcludeHeadersAndFooters results (res)
+//@   property C10
+//@   flags nosafety
+//@   ensures parent_unchanged: e == old(e)
+//@   ensures only_this_option_set: !isnil(res) && sameSource(res, e) && sameseq(res.options.pages, e.options.pages) && res.options.excludeHeaders && res.options.excludeFooters && res.options.byColumn == e.options.byColumn && res.options.preserveLayout == e.options.preserveLayout && res.options.joinParagraphs == e.options.joinParagraphs
+//@ func (*Extractor) JoinParagraphs results (res)
+//@   property C10
+//@   flags nosafety
+//@   ensures parent_unchanged: e == old(e)
+//@   ensures only_this_option_set: !isnil(res) && sameSource(res, e) && sameseq(res.options.pages, e.options.pages) && res.options.joinParagraphs && res.options.excludeHeaders == e.options.excludeHeaders && res.options.excludeFooters == e.options.excludeFooters && res.options.byColumn == e.options.byColumn && res.options.preserveLayout == e.options.preserveLayout
+//@ func (*Extractor) ByColumn results (res)
+//@   property C10
+//@   flags nosafety
+//@   ensures parent_unchanged: e == old(e)
+//@   ensures only_this_option_set: !isnil(res) && sameSource(res, e) && sameseq(res.options.pages, e.options.pages) && res.options.byColumn && res.options.excludeHeaders == e.options.excludeHeaders && res.options.excludeFooters == e.options.excludeFooters && res.options.preserveLayout == e.options.preserveLayout && res.options.joinParagraphs == e.options.joinParagraphs
+//@ func (*Extractor) PreserveLayout results (res)
+//@   property C10
+//@   flags nosafety
+//@   ensures parent_unchanged: e == old(e)
+//@   ensures only_this_option_set: !isnil(res) && sameSource(res, e) && sameseq(res.options.pages, e.options.pages) && res.options.preserveLayout && res.options.excludeHeaders == e.options.excludeHeaders && res.options.excludeFooters == e.options.excludeFooters && res.options.byColumn == e.options.byColumn && res.options.joinParagraphs == e.options.joinParagraphs
